@@ -92,11 +92,11 @@ EvConnect(f, from, a, to) == [ev |-> "connect", flow |-> f, from |-> from, act |
 EvRunCall(n)  == [ev |-> "runcall", node |-> n, ctxdone |-> (ctx = "done")]
 EvRunRet(r)   == [ev |-> "runret", act |-> r.act, iserr |-> r.err.is,
                   errs |-> SetToSortedSeq(r.err.toks), ctxerr |-> r.err.ctx]
-EvPrep(n, o, t) == [ev |-> "prep", node |-> n, sok |-> TRUE, out |-> o.out,
+EvPrep(n, o, t) == [ev |-> "prep", node |-> n, sok |-> TRUE, cok |-> TRUE, out |-> o.out,
                     val |-> IF o.out = "ok" THEN ValTok(o, t) ELSE 0,
                     err |-> IF o.out = "err" THEN t ELSE 0, cancel |-> o.cancel]
 EvExec(n, k, arg, o, t) == [ev |-> "exec", node |-> n, k |-> k, arg |-> arg.t,
-                    aw |-> "raw", aid |-> TRUE, out |-> o.out,
+                    aw |-> "raw", aid |-> TRUE, cok |-> TRUE, out |-> o.out,
                     val |-> IF o.out = "ok" THEN ValTok(o, t) ELSE 0,
                     err |-> IF o.out \in {"err", "eres"} THEN t ELSE 0, cancel |-> o.cancel]
 EvFb(n, arg, e, o, t) == [ev |-> "fb", node |-> n, arg |-> arg.t, aid |-> TRUE,
@@ -111,7 +111,7 @@ PostSees(n, xv) ==
        ELSE [exec |-> 0, eerr |-> FALSE, eerrtok |-> 0]    \* Any style: Value() of an error result is nil
 EvPost(n, pv, xv, o, t) ==
   LET s == PostSees(n, xv) IN
-  [ev |-> "post", node |-> n, sok |-> TRUE, prep |-> pv.t, pid |-> TRUE,
+  [ev |-> "post", node |-> n, sok |-> TRUE, cok |-> TRUE, prep |-> pv.t, pid |-> TRUE,
    exec |-> s.exec, eid |-> TRUE, ew |-> "raw", eerr |-> s.eerr, eerrtok |-> s.eerrtok,
    out |-> o.out, act |-> IF o.out = "ok" THEN o.act ELSE 0,
    err |-> IF o.out = "err" THEN t ELSE 0, cancel |-> o.cancel]
